@@ -45,8 +45,9 @@ W13 == [nodes |-> [i \in 1 .. Len(Instants) |->
 NoLit == R("", 0)
 Init == lit = NoLit /\ op = "" /\ tz = 0 /\ sep = "-" /\ quoted = TRUE /\ clock = 0 /\ phase = "start"
 ChooseAbs == /\ phase = "start"
-             /\ lit' \in AbsLits /\ op' \in Ops /\ tz' \in Offsets /\ sep' \in {"-", ":"}
-             /\ quoted' \in (IF lit'.prec = 1 THEN BOOLEAN ELSE {TRUE})        \* a blank inside needs quotes
+             \* sep "/": the documented free-form spelling day/month/year in the UK reading (08/02 is 8 February), day precision only
+             /\ lit' \in AbsLits /\ op' \in Ops /\ tz' \in Offsets /\ sep' \in (IF lit'.prec = 1 /\ lit'.y >= 2016 THEN {"-", ":", "/"} ELSE {"-", ":"})
+             /\ quoted' \in (IF lit'.prec = 1 /\ sep' # "/" THEN BOOLEAN ELSE {TRUE})        \* a blank inside needs quotes
              /\ clock' = Epoch(2017, 5, 1, 12, 0, 0, 0) /\ phase' = "done"
 ChooseRel == /\ phase = "start"
              /\ lit' \in RelLits /\ op' \in Ops /\ tz' \in Offsets /\ sep' = "-" /\ quoted' \in BOOLEAN
@@ -57,6 +58,7 @@ Next == ChooseAbs \/ ChooseRel \/ ChooseStamp
 Spec == Init /\ [][Next]_vars
 
 LitText == IF lit.word # "" THEN lit.word
+           ELSE IF sep = "/" THEN Pad2(lit.d) \o "/" \o Pad2(lit.m) \o "/" \o Pad4(lit.y)
            ELSE Pad4(lit.y) \o sep \o Pad2(lit.m) \o sep \o Pad2(lit.d)
                 \o (IF lit.prec >= 2 THEN " " \o Pad2(lit.hh) ELSE "")
                 \o (IF lit.prec >= 3 THEN ":" \o Pad2(lit.mi) ELSE "")
@@ -66,7 +68,7 @@ Query == IF op = "stamp" THEN "select name, modified from '.' into list"
          ELSE "select name from '.' where modified " \o OpText(op) \o " " \o Shown \o " into list"
 Class == IF op = "stamp" THEN "modified-text/" \o TzName(tz)
          ELSE (IF lit.word # "" THEN "relative:" \o lit.word ELSE "precision" \o ToString(lit.prec)) \o "/" \o op
-              \o (IF sep = ":" THEN "/colon" ELSE "") \o (IF quoted THEN "" ELSE "/unquoted")
+              \o (IF sep = ":" THEN "/colon" ELSE IF sep = "/" THEN "/day-month-year" ELSE "") \o (IF quoted THEN "" ELSE "/unquoted")
 Scenario == LET iv == IF op = "stamp" THEN <<0, 0>> ELSE Interval(lit, tz, clock) IN
   [prop |-> "C13", world |-> "W13", class |-> Class, op |-> op, a |-> iv[1], b |-> iv[2], off |-> tz,
    env |-> [tz |-> TzName(tz), cwd |-> 0, fake_epoch |-> IF lit.word # "" THEN clock ELSE -1],
